@@ -490,6 +490,17 @@ pub fn run(tier: Tier) -> Report {
     let mut rep = Report::new("C10", tier, "exploration");
     let g = grid(tier);
     let objs: Vec<Vec<Vec<f64>>> = vec![objectives(1, &[0.0, 1.0, -1.0]), objectives(2, &[0.0, 1.0, -1.0]), objectives(3, &[0.0, 1.0, -1.0])];
+    // rows with right-hand sides of 1e20 and unit coefficients (ordinary constraints at that scale; coefficients of 1e21
+    // were tried and withdrawn: the Chebyshev programme of [0,1] written as 1e21 x <= 1e21 comes back with radius 0 on the
+    // unchanged tree, the ill-conditioned regime of section 8)
+    let mut g = g;
+    for rows in [
+        vec![(vec![1.0], 1e20), (vec![-1.0], 0.0)],
+        vec![(vec![1.0], 1e20), (vec![-1.0], -2e20)],
+        vec![(vec![-1.0], 1e20), (vec![1.0], 1e20)],
+    ] {
+        g.push((Sys { n: 1, rows }, 0));
+    }
     let total = par_cases(&g, |i, (s, oi)| {
         let mut o = check_system(s, &objs[*oi]);
         // every 3rd system with a matrix of at least 2x2 once more with column-major storage
